@@ -252,4 +252,243 @@ Proof.
   apply FileCanon_intro. constructor; assumption.
 Qed.
 
+Lemma file_end ho hh s2 hh2 rem u :
+  fhost_ok hp hd ho -> nlen (file_front ho) <= U32_MAX_P -> usv_list rem ->
+  (path_good (file_front ho) hh s2 hh2 \/ path_drive (file_front ho) hh s2 hh2) ->
+  (' (s3, qs, fs) <~ parse_query_and_fragment ovr CUrlParser STFile 4 s2 rem ;;
+   POk (file_url s3 7 (nlen (file_front ho)) (fhost_hi ho) qs fs)) = POk u ->
+  Known_file_drive u = false -> FileCanon u.
+Proof.
+  intros Hh Hb Hu [(segs & last & -> & G1 & G2 & G3 & _) | (a & X & Ha & ->)] H Hk.
+  - destruct (file_tail ho _ rem u Hu Hh Hb H) as (q & f & -> & Cq & Cf & Bq & Bf).
+    apply file_good_out; assumption.
+  - destruct (file_tail ho _ rem u Hu Hh Hb H) as (q & f & -> & _).
+    rewrite (drive_known hd ho a X q f Ha) in Hk. discriminate Hk.
+Qed.
+
+(* entries that leave no host: the loop runs from "file:///" *)
+Lemma nohost_entry l s2 hh2 rem u : usv_list l ->
+  parse_path_loop dbg CUrlParser STFile (nlen s_file_css) l (s_file_css ++ [47]) (nlen (s_file_css ++ [47])) [] false
+  = POk (s2, hh2, rem) ->
+  (' (s3, qs, fs) <~ parse_query_and_fragment ovr CUrlParser STFile 4 s2 rem ;;
+   POk (file_url s3 7 7 HI_None qs fs)) = POk u ->
+  Known_file_drive u = false -> FileCanon u.
+Proof.
+  intros Hl E H Hk. destruct (loop_out dbg s_file_css l false s2 hh2 rem Hl E) as [Hrem R].
+  assert (nlen (file_front None) <= U32_MAX_P) as Hb by (vm_compute; discriminate).
+  exact (file_end None false s2 hh2 rem u I Hb Hrem R H Hk).
+Qed.
+
+(* what parse_file does with the outcome of the file host scan (the code behind parse_file_host) *)
+Definition fh_cont (x : list N * bool * host_internal * list N) : pres url :=
+  let '(ser1, path_start_flag, hi, remaining) := x in
+  host_end <~ to_u32 (nlen ser1) ;;
+  ' (ser2, has_host, remaining2) <~
+    (if path_start_flag
+     then parse_path_start dbg CUrlParser STFile (negb (hi_eqb hi HI_None)) ser1 remaining
+     else parse_path dbg CUrlParser STFile (negb (hi_eqb hi HI_None)) (nlen ser1) (ser1 ++ [47]) remaining) ;;
+  let '(ser3, host_end3, hi3) :=
+    if negb has_host then (nfirstn 7 ser2 ++ nskipn host_end ser2, 7, HI_None) else (ser2, host_end, hi) in
+  ' (ser4, qs, fs) <~ parse_query_and_fragment ovr CUrlParser STFile 4 ser3 remaining2 ;;
+  POk (file_url ser4 7 host_end3 hi3 qs fs).
+
+Lemma fh_cont_eq ser1 (flag : bool) hi remaining :
+  fh_cont (ser1, flag, hi, remaining)
+  = (host_end <~ to_u32 (nlen ser1) ;;
+     ' (ser2, has_host, remaining2) <~
+       (if flag
+        then parse_path_start dbg CUrlParser STFile (negb (hi_eqb hi HI_None)) ser1 remaining
+        else parse_path dbg CUrlParser STFile (negb (hi_eqb hi HI_None)) (nlen ser1) (ser1 ++ [47]) remaining) ;;
+     let '(ser3, host_end3, hi3) :=
+       if negb has_host then (nfirstn 7 ser2 ++ nskipn host_end ser2, 7, HI_None) else (ser2, host_end, hi) in
+     ' (ser4, qs, fs) <~ parse_query_and_fragment ovr CUrlParser STFile 4 ser3 remaining2 ;;
+     POk (file_url ser4 7 host_end3 hi3 qs fs)).
+Proof. reflexivity. Qed.
+
+(* the file host state without a host (nothing before the path, a drive letter, or "localhost") *)
+Lemma fhost_none_entry R u : usv_list R ->
+  fh_cont (s_file_css, false, HI_None, R) = POk u ->
+  Known_file_drive u = false -> FileCanon u.
+Proof.
+  intros HR H Hk. rewrite fh_cont_eq in H. change (to_u32 (nlen s_file_css)) with (POk 7) in H. cbn [pbind hi_eqb negb] in H.
+  unfold parse_path in H.
+  destruct (parse_path_loop dbg CUrlParser STFile (nlen s_file_css) R (s_file_css ++ [47]) (nlen (s_file_css ++ [47])) [] false)
+    as [[[s2 hh2] rem]| |] eqn:E; cbn [pbind] in H; try discriminate H.
+  destruct hh2; cbn [negb] in H.
+  - exact (nohost_entry R s2 true rem u HR E H Hk).
+  - rewrite nfirstn_nskipn in H. exact (nohost_entry R s2 false rem u HR E H Hk).
+Qed.
+
+Definition not_localhost (h : host) : bool :=
+  match h with HDomain d => negb (list_eqb d s_localhost) | _ => true end.
+
+Lemma fhost_ok_parsed s h : hp s = Ok h -> not_localhost h = true -> fhost_ok hp hd (Some h).
+Proof.
+  intros Hp Hn. assert (h <> HDomain []) as Hne by (intros ->; exact (HNE s Hp)).
+  destruct HRT as (H1 & _). destruct (H1 s h Hp Hne) as [Ht Hrt].
+  cbn [fhost_ok]. split; [exact Hne|]. split; [intros ->; discriminate Hn|]. split; [exact Ht|]. split; [exact Hrt|].
+  split; [exact (proj1 HAb s h Hp) | exact (HW s h Hp)].
+Qed.
+
+(* the path loop behind a host *)
+Lemma host_loop_end s h l s2 hh2 rem u : hp s = Ok h -> not_localhost h = true ->
+  nlen (s_file_css ++ hd h) <= U32_MAX_P -> usv_list l ->
+  parse_path_loop dbg CUrlParser STFile (nlen (s_file_css ++ hd h)) l ((s_file_css ++ hd h) ++ [47])
+    (nlen ((s_file_css ++ hd h) ++ [47])) [] true = POk (s2, hh2, rem) ->
+  (let '(ser3, host_end3, hi3) :=
+     if negb hh2 then (nfirstn 7 s2 ++ nskipn (nlen (s_file_css ++ hd h)) s2, 7, HI_None)
+     else (s2, nlen (s_file_css ++ hd h), hi_of_host h) in
+   ' (ser4, qs, fs) <~ parse_query_and_fragment ovr CUrlParser STFile 4 ser3 rem ;;
+   POk (file_url ser4 7 host_end3 hi3 qs fs)) = POk u ->
+  Known_file_drive u = false -> FileCanon u.
+Proof.
+  intros Hp Hn Hb Hl E H Hk. pose proof (fhost_ok_parsed s h Hp Hn) as Hh.
+  destruct (loop_out dbg (s_file_css ++ hd h) l true s2 hh2 rem Hl E) as [Hrem R].
+  destruct hh2; cbn [negb] in H.
+  - exact (file_end (Some h) true s2 true rem u Hh Hb Hrem R H Hk).
+  - (* the host flag was cleared: the host text is removed *)
+    assert (exists Y, s2 = (s_file_css ++ hd h) ++ Y) as [Y EY].
+    { destruct R as [(segs & last & -> & _) | (a & X & _ & ->)]; eexists; reflexivity. }
+    assert (nfirstn 7 s2 ++ nskipn (nlen (s_file_css ++ hd h)) s2 = s_file_css ++ Y) as E3.
+    { rewrite EY. rewrite nskipn_app_len. rewrite <- app_assoc. change 7 with (nlen s_file_css). rewrite nfirstn_app_len. reflexivity. }
+    rewrite E3 in H.
+    assert (path_good (file_front None) false (s_file_css ++ Y) false \/ path_drive (file_front None) false (s_file_css ++ Y) false) as R'.
+    { destruct R as [(segs & last & E2 & G1 & G2 & G3 & _) | (a & X & Ha & E2)]; rewrite EY in E2; apply app_inv_head in E2; subst Y.
+      - left. exists segs, last. repeat split; try assumption. left. reflexivity.
+      - right. exists a, X. split; [exact Ha | reflexivity]. }
+    assert (nlen (file_front None) <= U32_MAX_P) as Hb0 by (vm_compute; discriminate).
+    exact (file_end None false _ false rem u I Hb0 Hrem R' H Hk).
+Qed.
+
+(* the file host state with a host *)
+Lemma fhost_some_entry s h R u : hp s = Ok h -> not_localhost h = true -> usv_list R ->
+  fh_cont (s_file_css ++ hd h, true, hi_of_host h, R) = POk u ->
+  Known_file_drive u = false -> FileCanon u.
+Proof.
+  intros Hp Hn HR H Hk. pose proof (fhost_ok_parsed s h Hp Hn) as Hh.
+  destruct Hh as (Hne & _ & Ht & _). rewrite fh_cont_eq in H.
+  destruct (to_u32 (nlen (s_file_css ++ hd h))) as [he| |] eqn:Eu; cbn [pbind] in H; try discriminate H.
+  apply to_u32_inv in Eu. destruct Eu as [-> Hb].
+  rewrite (hi_of_host_none h Hne) in H. cbn [negb] in H.
+  unfold parse_path_start in H. destruct (inp_split_first R) as [mc rm] eqn:Es. cbn [st_is_special] in H.
+  rewrite (host_text_last (hd h) s_file_css Ht) in H. cbn [negb] in H.
+  assert (forall l, usv_list l ->
+            (' (ser2, has_host, remaining2) <~ parse_path dbg CUrlParser STFile true (nlen (s_file_css ++ hd h)) ((s_file_css ++ hd h) ++ [47]) l ;;
+             let '(ser3, host_end3, hi3) :=
+               if negb has_host then (nfirstn 7 ser2 ++ nskipn (nlen (s_file_css ++ hd h)) ser2, 7, HI_None)
+               else (ser2, nlen (s_file_css ++ hd h), hi_of_host h) in
+             ' (ser4, qs, fs) <~ parse_query_and_fragment ovr CUrlParser STFile 4 ser3 remaining2 ;;
+             POk (file_url ser4 7 host_end3 hi3 qs fs)) = POk u -> FileCanon u) as Hgo.
+  { intros l Hl H0. unfold parse_path in H0.
+    destruct (parse_path_loop dbg CUrlParser STFile (nlen (s_file_css ++ hd h)) l ((s_file_css ++ hd h) ++ [47])
+                (nlen ((s_file_css ++ hd h) ++ [47])) [] true) as [[[s2 hh2] rem]| |] eqn:E; cbn [pbind] in H0; try discriminate H0.
+    exact (host_loop_end s h l s2 hh2 rem u Hp Hn Hb Hl E H0 Hk). }
+  destruct mc as [c|].
+  - assert (usv_list rm) as Hrm.
+    { unfold inp_split_first in Es. destruct (inp_next R) as [[c' r']|] eqn:En; inversion Es; subst.
+      exact (inp_next_usv R c rm HR En). }
+    destruct (is_slash_or_bslash c); [exact (Hgo rm Hrm H) | exact (Hgo R HR H)].
+  - exact (Hgo R HR H).
+Qed.
+
+Lemma inp_split_first_usv l c r : usv_list l -> inp_split_first l = (Some c, r) -> usv_list r.
+Proof.
+  intros Hl E. unfold inp_split_first in E. destruct (inp_next l) as [[c' r']|] eqn:En; inversion E; subst.
+  exact (inp_next_usv l c r Hl En).
+Qed.
+
+Lemma pbind_POk {A B : Type} (a : A) (f : A -> pres B) : pbind (POk a) f = f a.
+Proof. reflexivity. Qed.
+
+(* the three outcomes of the file host scan *)
+Lemma pfh_cases an : usv_list an ->
+  (exists R, usv_list R /\ parse_file_host hp hd s_file_css an = POk (s_file_css, false, HI_None, R))
+  \/ (exists s h R, usv_list R /\ hp s = Ok h /\ not_localhost h = true
+        /\ parse_file_host hp hd s_file_css an = POk (s_file_css ++ hd h, true, hi_of_host h, R))
+  \/ (forall x, parse_file_host hp hd s_file_css an <> POk x).
+Proof.
+  intros Han. unfold parse_file_host, file_host. destruct (file_host_scan [] an) as [t rem0] eqn:Esc.
+  destruct (file_host_scan_out an [] t rem0 Han Esc) as [Hrem0 _].
+  destruct (is_wdl t) eqn:Ew.
+  - left. exists an. split; [exact Han | reflexivity].
+  - destruct t as [|c0 t'].
+    + left. exists rem0. split; [exact Hrem0 | reflexivity].
+    + destruct (hp (c0 :: t')) as [h|e] eqn:Ehp; cbn [of_result pbind].
+      * destruct (not_localhost h) eqn:En.
+        -- right. left. exists (c0 :: t'), h, rem0. split; [exact Hrem0|]. split; [exact Ehp|]. split; [exact En|].
+           destruct h as [d| |]; try reflexivity. unfold not_localhost in En. apply negb_true_iff in En. rewrite En. reflexivity.
+        -- left. exists rem0. split; [exact Hrem0|].
+           destruct h as [d| |]; try discriminate En. unfold not_localhost in En. apply negb_false_iff in En. rewrite En. reflexivity.
+      * right. right. intros x. discriminate.
+Qed.
+
+(* the file host state: everything behind "file://" *)
+Lemma file_host_state an u : usv_list an ->
+  pbind (parse_file_host hp hd s_file_css an) fh_cont = POk u ->
+  Known_file_drive u = false -> FileCanon u.
+Proof.
+  intros Han H Hk.
+  destruct (pfh_cases an Han) as [(R & HR & E) | [(s & h & R & HR & Hp & Hn & E) | E]].
+  - rewrite E, pbind_POk in H. exact (fhost_none_entry R u HR H Hk).
+  - rewrite E, pbind_POk in H. exact (fhost_some_entry s h R u Hp Hn HR H Hk).
+  - exfalso. destruct (parse_file_host hp hd s_file_css an) as [x| |]; [exact (E x eq_refl) | discriminate H | discriminate H].
+Qed.
+
+(* one slash: the path state sees it *)
+Lemma file_one_slash l c af u : usv_list af -> inp_split_first l = (Some c, af) -> is_slash_or_bslash c = true ->
+  (' (ser2, _, remaining) <~ parse_path dbg CUrlParser STFile false 7 s_file_css l ;;
+   ' (ser3, qs, fs) <~ parse_query_and_fragment ovr CUrlParser STFile 4 ser2 remaining ;;
+   POk (file_url ser3 7 7 HI_None qs fs)) = POk u ->
+  Known_file_drive u = false -> FileCanon u.
+Proof.
+  intros Haf E1 Es1 H Hk. unfold parse_path in H. change (nlen s_file_css) with 7 in H.
+  rewrite (loop_one_slash dbg l c af false E1 Es1) in H.
+  destruct (parse_path_loop dbg CUrlParser STFile 7 af (s_file_css ++ [47]) 8 [] false) as [[[s2 hh2] rem]| |] eqn:E;
+    cbn [pbind] in H; try discriminate H.
+  exact (nohost_entry af s2 hh2 rem u Haf E H Hk).
+Qed.
+
+(* no slash *)
+Lemma file_no_slash l u : usv_list l ->
+  (' (s2, _, rem) <~ parse_path dbg CUrlParser STFile false 7 (s_file_css ++ [47]) l ;;
+   ' (s3, qs, fs) <~ parse_query_and_fragment ovr CUrlParser STFile 4 s2 rem ;;
+   POk (file_url s3 7 7 HI_None qs fs)) = POk u ->
+  Known_file_drive u = false -> FileCanon u.
+Proof.
+  intros Hl H Hk. unfold parse_path in H.
+  destruct (parse_path_loop dbg CUrlParser STFile 7 l (s_file_css ++ [47]) (nlen (s_file_css ++ [47])) [] false)
+    as [[[s2 hh2] rem]| |] eqn:E; cbn [pbind] in H; try discriminate H.
+  exact (nohost_entry l s2 hh2 rem u Hl E H Hk).
+Qed.
+
+(* L1 for parse_file without a base *)
+Theorem parse_file_nobase l u : usv_list l ->
+  parse_file dbg hp hd ovr CUrlParser STFile None l = POk u ->
+  Known_file_drive u = false -> FileCanon u.
+Proof.
+  intros Hl H Hk. unfold parse_file in H.
+  destruct (inp_split_first l) as [fc af] eqn:E1.
+  destruct (match fc with Some c => is_slash_or_bslash c | None => false end) eqn:Es1.
+  - destruct fc as [c|]; [|discriminate Es1]. pose proof (inp_split_first_usv l c af Hl E1) as Haf.
+    destruct (inp_split_first af) as [nc an] eqn:E2.
+    destruct (match nc with Some c => is_slash_or_bslash c | None => false end) eqn:Es2.
+    + destruct nc as [c2|]; [|discriminate Es2]. pose proof (inp_split_first_usv af c2 an Haf E2) as Han.
+      exact (file_host_state an u Han H Hk).
+    + assert ((if negb (starts_with_wdl_segment af) then (s_file_css, 7, HI_None) else (s_file_css, 7, HI_None))
+              = (s_file_css, 7, HI_None)) as Eif by (destruct (negb (starts_with_wdl_segment af)); reflexivity).
+      rewrite Eif in H. exact (file_one_slash l c af u Haf E1 Es1 H Hk).
+  - exact (file_no_slash l u Hl H Hk).
+Qed.
+
+(* from the input text *)
+Theorem parse_file_Canon5 input sch rem u : usv_list input ->
+  parse_scheme CUrlParser (input_new_trim_c0 input) = Some (sch, rem) -> scheme_type_of sch = STFile ->
+  parse_url dbg hp hpo hd ovr None input = POk u ->
+  Known_file_drive u = false -> FileCanon u.
+Proof.
+  intros Hu Hs Hst H Hk. unfold parse_url in H. rewrite Hs in H. unfold parse_with_scheme in H. rewrite Hst in H.
+  destruct (to_u32 (nlen sch)) as [se| |]; cbn [pbind] in H; try discriminate H.
+  exact (parse_file_nobase rem u (scheme_rem_usv input sch rem Hu Hs) H Hk).
+Qed.
+
 End ParseFile.
